@@ -1289,8 +1289,10 @@ package goatlang
 //@   ensures#frame keeps(v, len(v.stack) - 1)
 //@   ensures#next stays(v)
 //@ func (*VM).exec case codeNewStruct
-//@   property C07
-//@   requires int(ins(v).B) >= 0 && need(v, int(ins(v).B)) && globalOK(v, ins(v).A)
+//@   property C07 C12
+//@   requires int(ins(v).B) >= 0 && need(v, int(ins(v).B)) && globalOK(v, ins(v).A) && int(ins(v).B) % 2 == 0 && validStack(v)
+//@   requires is(v.globals.data[int(ins(v).A)].value, *structT) && wfS(as(v.globals.data[int(ins(v).A)].value, *structT))
+//@   ensures#instance is(top(v, 0).value, *structT) && isfresh(as(top(v, 0).value, *structT)) && isfresh(arr(as(top(v, 0).value, *structT).Fields.pairs)) && as(top(v, 0).value, *structT).Methods == old(as(v.globals.data[int(ins(v).A)].value, *structT).Methods)
 //@   ensures#delta len(v.stack) == old(len(v.stack)) - int(old(ins(v)).B) + 1
 //@   ensures#frame keeps(v, len(v.stack) - 1)
 //@   ensures#next stays(v)
